@@ -850,7 +850,7 @@ func RunC13(tier string) int {
 		if thorough {
 			bound = 2
 		}
-		mapOrdBudget = 150 * time.Second
+		mapOrdBudget = 240 * time.Second
 		if thorough {
 			mapOrdBudget = 20 * time.Minute
 		}
